@@ -110,3 +110,68 @@ def default_theory_rule(c):
         made = c.call(interpret_theory, s, MieLens)
         c.ensures("class-is-instantiated", isinstance(made, MieLens) and not isinstance(made, type))
         c.ensures("explicit-class-equals-auto-choice", type(c.call(interpret_theory, s, Mie)) is type(auto))
+
+
+@contract("C09", "multisphere_handoff", ["holopy.scattering.theory.multisphere:Multisphere._scsmfo_setup"],
+          bounded="clusters of 3 spheres", patches=STUB)
+def multisphere_handoff(c):
+    """the multi-sphere solver is given the sphere positions relative to the cluster's centroid, in units of 1/k, with z reversed,
+    the relative indices and the size parameters - so listing the spheres in another order permutes its arguments consistently, a
+    common shift of the cluster changes nothing, and rotating the cluster about the optical axis rotates the positions it is given"""
+    import holopy.scattering.theory.multisphere as ms
+    k = c.real("k", pos=True, sample=(5, 20))
+    n_med = c.real("medium_index", pos=True, sample=(1, 1.6))
+    m = 3
+    cs = [np.array([c.real("c%d_%d" % (i, q), sample=(-3, 3)) for q in range(3)], dtype=object if c.symbolic else float) for i in range(m)]
+    rs = [c.real("r%d" % i, pos=True, sample=(0.2, 1)) for i in range(m)]
+    ns = [c.real("n%d" % i, pos=True, sample=(1.2, 2)) for i in range(m)]
+    if c.symbolic:
+        c.requires(c.and_(*[r * k <= 1000 for r in rs]))
+        c.requires(c.and_(*[(cs[i][q] - sum(cc[q] for cc in cs) / m) * k <= 10000 for i in range(m) for q in range(3)]))
+    shift = np.array([c.real("shift_%d" % q, sample=(-5, 5)) for q in range(3)], dtype=object if c.symbolic else float)
+    psi = c.angle("psi")
+    calls = []
+
+    class Fake:
+        @staticmethod
+        def amncalc(flag, x, y, z, mre, mim, xs, *rest):
+            calls.append(dict(x=list(x), y=list(y), z=list(z), mre=list(mre), mim=list(mim), xs=list(xs), rest=rest))
+            return None, 1, np.zeros((1, 5, 2), dtype=complex), 1
+    had = 'scsmfo_min' in ms.__dict__
+    saved = ms.__dict__.get('scsmfo_min')
+    ms.scsmfo_min = Fake
+    try:
+        with deployed():
+            th = ms.Multisphere()
+            mk = lambda centres, order: Spheres([Sphere(n=ns[i], r=rs[i], center=centres[i]) for i in order], warn=False)
+            def run(*a):
+                # clusters too extended for the solver are refused with InvalidScatterer: not the subject here
+                o = c.outcome(th._scsmfo_setup, *a)
+                return o.ok or not o.raised(ms.InvalidScatterer)
+            ok = run(mk(cs, [0, 1, 2]), k, n_med) and run(mk(cs, [2, 0, 1]), k, n_med) \
+                and run(mk([v + shift for v in cs], [0, 1, 2]), k, n_med)
+            com = sum(cs) / m
+            cp, sp = c.cos(psi), c.sin(psi)
+            rot = [np.array([com[0] + cp * (v[0] - com[0]) - sp * (v[1] - com[1]), com[1] + sp * (v[0] - com[0]) + cp * (v[1] - com[1]), v[2]],
+                            dtype=object if c.symbolic else float) for v in cs]
+            ok = ok and run(mk(rot, [0, 1, 2]), k, n_med)
+    finally:
+        if had:
+            ms.scsmfo_min = saved
+        else:
+            del ms.scsmfo_min
+    if not ok or len(calls) != 4:
+        return
+    a, perm, shifted, rotated = calls
+    for i in range(m):
+        c.ensures("centroid-centred-positions-in-units-of-1/k", c.and_(c.eq(a['x'][i], k * (cs[i][0] - com[0])), c.eq(a['y'][i], k * (cs[i][1] - com[1])),
+                                                                      c.eq(a['z'][i], -k * (cs[i][2] - com[2]))))
+        c.ensures("relative-index-and-size-parameter", c.and_(c.eq(a['mre'][i], ns[i] / n_med), c.eq(a['mim'][i], 0), c.eq(a['xs'][i], k * rs[i])))
+    for pos, i in enumerate([2, 0, 1]):
+        c.ensures("reordering-permutes-the-arguments", c.and_(*[c.eq(perm[key][pos], a[key][i]) for key in ('x', 'y', 'z', 'mre', 'xs')]))
+    c.ensures("common-shift-invisible", c.and_(*[c.eq(shifted[key][i], a[key][i]) for key in ('x', 'y', 'z') for i in range(m)]))
+    for i in range(m):
+        c.ensures("rotation-about-the-axis-rotates-the-positions", c.and_(c.eq(rotated['x'][i], cp * a['x'][i] - sp * a['y'][i]),
+                                                                          c.eq(rotated['y'][i], sp * a['x'][i] + cp * a['y'][i]),
+                                                                          c.eq(rotated['z'][i], a['z'][i])))
+    c.ensures("solver-options-passed", a['rest'][:5] == (th.niter, th.eps, th.qeps1, th.qeps2, th.meth))
